@@ -1,6 +1,7 @@
 //! eggmon: language-level runtime monitors for egglog (one sub-command per property).
 mod c04;
 mod dump;
+mod exec;
 mod pgen;
 mod out;
 mod rng;
@@ -58,6 +59,7 @@ fn main() {
     run::quiet_panics();
     let report = match argv[1].as_str() {
         "c04" => c04::run(&a),
+        "exec" => exec::run(&a),
         other => {
             eprintln!("unknown monitor {other}");
             std::process::exit(2);
